@@ -1,5 +1,6 @@
 import Lean.Data.Json
 import SpoxModel.Model.Singleton
+import SpoxModel.Model.MLOnnx
 /-! Line-protocol handler for property C05 (model side of the correspondence): a constructor call in,
     the model's singleton one-node model, the hand-built form, and `construct` (with the inference
     answer observed on the real run plugged in as the judgement) out. -/
@@ -162,6 +163,13 @@ partial def parsePTy (j : Json) : Except String PTy := do
     return .opt (← parsePTy t)
   else throw "bad proto type"
 
+def elemOfCode : Nat → Option C06M.Elem
+  | 1 => some .f32 | 11 => some .f64 | 6 => some .i32 | 7 => some .i64 | 9 => some .bool | 8 => some .str
+  | _ => none
+
+def codeOfElem : C06M.Elem → Nat
+  | .f32 => 1 | .f64 => 11 | .i32 => 6 | .i64 => 7 | .bool => 9 | .str => 8
+
 def handle (req : Json) : Json :=
   match (do
     let c ← parseCall req
@@ -263,7 +271,16 @@ def handle (req : Json) : Json :=
         | "if", _ => pure [("formals", formalsJ (some []))]
         | _, _ => pure []
       | none => pure []
-    return Json.mkObj (base ++ extra ++ vpExtra ++ suppExtra ++ protoExtra ++ formalsExtra)) with
+    -- ONNX's own answer for the ml operators whose inference spox replaces (element type of the output)
+    let mlExtra ← match (req.getObjVal? "ml_onnx").toOption with
+      | some mj => do
+        let opn ← mj.getObjValAs? String "op"
+        let code ← mj.getObjValAs? Nat "elem"
+        match elemOfCode code with
+        | some e => pure [("ml_onnx", toJson (codeOfElem (MLOnnx.onnxMlElem opn e)))]
+        | none => pure []
+      | none => pure []
+    return Json.mkObj (base ++ extra ++ vpExtra ++ suppExtra ++ protoExtra ++ formalsExtra ++ mlExtra)) with
   | .ok j => j
   | .error e => Json.mkObj [("error", e)]
 
